@@ -51,4 +51,6 @@ def instances(build, tier, seed):
                           unwind=(len(dpre) + ndig + 14) if base == 10 else 72, unwindset=['strcmp.0:8', 'strpbrk.0:10', 'strpbrk.1:82'], family='literal',
                           timeout=300 if tier == 'quick' else 900, backends=['sat', 'z3'],
                           bound={'base': base, 'suffix': sf, 'digits': ('%s + %d symbolic digits' % (dpre, ndig)) if base == 10 else 'symbolic (full 64-bit value)'}))
+    import typeoflib
+    L += typeoflib.instances(tier)
     return L
